@@ -70,6 +70,7 @@ import (
 	"fmt"
 	"math"
 	"os"
+	"reflect"
 	"strconv"
 	"strings"
 	"time"
@@ -211,6 +212,25 @@ type node struct {
 }
 
 func setG() { gxs = []int{1} }
+
+const cLim = 5
+const cLo, cHi = 2, 7
+const cOne = 1
+const cF = 2.5
+const cS = "ab"
+const cT int = 9
+
+// verifIsNil: is v the nil value of its type (judged where nil is the predeclared identifier)
+func verifIsNil(v interface{}) bool {
+	if v == nil {
+		return true
+	}
+	switch rv := reflect.ValueOf(v); rv.Kind() {
+	case reflect.Ptr, reflect.Slice, reflect.Map, reflect.Func, reflect.Chan, reflect.Interface:
+		return rv.IsNil()
+	}
+	return false
+}
 
 func run(f func(in) interface{}, i in) (out string) {
 	logbuf = logbuf[:0]
@@ -415,6 +435,11 @@ func Grid(r *rand.Rand, text string, max int) []Input {
 		used["a"], used["b"], used["c"] = true, true, true
 	}
 	lits := map[int]bool{0: true, 1: true}
+	for name, v := range ConstInts {
+		if used[name] {
+			lits[v] = true
+		}
+	}
 	for _, m := range intLitRe.FindAllString(text, -1) {
 		if v, err := strconv.ParseInt(m, 0, 64); err == nil && v < 1<<20 {
 			lits[int(v)] = true
